@@ -1,8 +1,13 @@
+(* Proofs for C13: the evaluator model (model/Calc.v) against the specification (CalcSpec.v). *)
 From Coq Require Import String.
-From Coq Require Import List NArith ZArith Bool Lia.
-From AV Require Import model.Proto model.Calc.
+From Coq Require Import List NArith ZArith Bool Lia ZifyBool ZifyN.
+From AV Require Import model.Proto model.Calc proofs.CalcSpec.
 Import ListNotations.
 Open Scope Z_scope.
+
+(* ====================================================================================== *)
+(* 1. One operator                                                                         *)
+(* ====================================================================================== *)
 
 (* ediv is Euclidean division: the remainder lies in [0, |y|) *)
 Lemma ediv_euclid x y : y <> 0 -> 0 <= x - ediv x y * y < Z.abs y.
@@ -14,4 +19,453 @@ Proof.
   - apply Z.ltb_ge in E.
     pose proof (Z.mod_pos_bound x y ltac:(lia)) as Hm.
     pose proof (Z.div_mod x y ltac:(lia)) as Hd. nia.
+Qed.
+
+Lemma ediv_is_equot x y : y <> 0 -> is_equot x y (ediv x y).
+Proof.
+  intros Hy. exists (x - ediv x y * y). split; [lia | now apply ediv_euclid].
+Qed.
+
+Lemma equot_unique x y q q' : is_equot x y q -> is_equot x y q' -> q = q'.
+Proof.
+  intros [r [H1 H2]] [r' [H1' H2']].
+  destruct (Z.eq_dec q q') as [|Hne]; [assumption | exfalso].
+  assert (Hd : (q - q') * y = r' - r) by lia.
+  assert (Ha : Z.abs ((q - q') * y) < Z.abs y) by (rewrite Hd; lia).
+  rewrite Z.abs_mul in Ha.
+  assert (1 <= Z.abs (q - q')) by lia. nia.
+Qed.
+
+(* the value apply computes for "x o y": None when the evaluator reports a division by zero *)
+Definition aply (o : bop) (x y : Z) : option Z :=
+  if nonzero o && (y =? 0) then None
+  else match arith o x y with Ok z => Some z | _ => None end.
+
+Definition divzero : list N := $"divzero".
+
+Lemma apply_aply o x y vs :
+  apply o (y :: x :: vs) =
+  match aply o x y with Some z => Ok (z :: vs) | None => Err divzero end.
+Proof.
+  unfold apply, aply.
+  destruct o; cbn [nonzero andb arith obind]; try reflexivity.
+  destruct (y =? 0); reflexivity.
+Qed.
+
+Lemma apply_short o vs : (length vs < 2)%nat -> apply o vs = Err $"toofew".
+Proof.
+  destruct vs as [|a [|b vs]]; cbn [length]; intros H; try reflexivity. lia.
+Qed.
+
+Lemma binop_aply o x y z : binop o x y z <-> aply o x y = Some z.
+Proof.
+  split.
+  - intros H. destruct H; unfold aply; cbn [nonzero andb arith].
+    + destruct (y <=? 0) eqn:E; [lia | reflexivity].
+    + destruct (y <=? 0) eqn:E; [reflexivity | lia].
+    + reflexivity.
+    + destruct (y =? 0) eqn:E; [lia|]. f_equal.
+      apply (equot_unique x y); [now apply ediv_is_equot | assumption].
+    + reflexivity.
+    + reflexivity.
+  - unfold aply. destruct o; cbn [nonzero andb arith]; intros H.
+    + injection H as <-. destruct (y <=? 0) eqn:E; [apply b_pow_nonpos | apply b_pow_pos]; lia.
+    + injection H as <-. constructor.
+    + destruct (y =? 0) eqn:E; [discriminate|]. injection H as <-.
+      apply b_div; [lia | apply ediv_is_equot; lia].
+    + injection H as <-. constructor.
+    + injection H as <-. constructor.
+Qed.
+
+Lemma aply_total o x y : aply o x y = None -> o = Div /\ y = 0.
+Proof.
+  unfold aply. destruct o; cbn [nonzero andb arith]; try discriminate.
+  destruct (y =? 0) eqn:E; [split; [reflexivity | lia] | discriminate].
+Qed.
+
+(* ====================================================================================== *)
+(* 2. Token level: the shunting yard against the grammar                                   *)
+(* ====================================================================================== *)
+
+(* The loop of Eval over tokens instead of bytes (number() replaced by TNum). *)
+Fixpoint run (ts : list tok) (operand : bool) (vs : list Z) (os : list bop) : outcome Z :=
+  match ts with
+  | [] => result vs os
+  | TNum n :: ts' => if operand then run ts' false (n :: vs) os else Err $"operator"
+  | TOp o :: ts' =>
+      if operand then Err $"number"
+      else obind (push_operator o vs os) (fun st => run ts' true (fst st) (snd st))
+  end.
+
+Definition yard (ts : list tok) : outcome Z := run ts true [] [].
+
+(* does top stay on the stack when nxt arrives? (None = end of input: everything is popped) *)
+Definition stop (top : bop) (nxt : option bop) : bool :=
+  match nxt with
+  | None => false
+  | Some o => (prec top <? prec o)%N || ((prec top =? prec o)%N && rassoc o)
+  end.
+
+Definition cont (nxt : option bop) (rest : list tok) : list tok :=
+  match nxt with Some o => TOp o :: rest | None => [] end.
+
+Definition after (nxt : option bop) (rest : list tok) (vs : list Z) (os : list bop) : outcome Z :=
+  run (cont nxt rest) false vs os.
+
+Lemma after_nopop nxt rest a b vs top os :
+  stop top nxt = false ->
+  after nxt rest (b :: a :: vs) (top :: os) =
+  match aply top a b with Some z => after nxt rest (z :: vs) os | None => Err divzero end.
+Proof.
+  intros Hs. destruct nxt as [o|]; unfold after, cont; cbn [run].
+  - unfold push_operator. cbn [pop_while]. unfold stop in Hs. rewrite Hs.
+    rewrite apply_aply. destruct (aply top a b); reflexivity.
+  - cbn [result]. rewrite apply_aply. destruct (aply top a b); reflexivity.
+Qed.
+
+Lemma after_push o rest vs os :
+  match os with [] => True | top :: _ => stop top (Some o) = true end ->
+  after (Some o) rest vs os = run rest true vs (o :: os).
+Proof.
+  intros Hs. unfold after, cont. cbn [run]. unfold push_operator.
+  destruct os as [|top os]; cbn [pop_while]; [reflexivity|].
+  unfold stop in Hs. rewrite Hs. reflexivity.
+Qed.
+
+Lemma stop_pow top : stop top (Some Pow) = true.
+Proof. destruct top; reflexivity. Qed.
+
+(* the grammar with an explicit "division by zero inside" result (None) *)
+Definition obin (o : bop) (r1 r2 : option Z) : option Z :=
+  match r1, r2 with Some a, Some b => aply o a b | _, _ => None end.
+
+Inductive Fg : list tok -> option Z -> Prop :=
+| Fg_num n : Fg [TNum n] (Some n)
+| Fg_pow n ts r : Fg ts r -> Fg (TNum n :: TOp Pow :: ts) (obin Pow (Some n) r).
+
+Inductive Tg : list tok -> option Z -> Prop :=
+| Tg_f ts r : Fg ts r -> Tg ts r
+| Tg_mul ts1 ts2 r1 r2 o : Tg ts1 r1 -> Fg ts2 r2 -> (o = Mul \/ o = Div) ->
+    Tg (ts1 ++ TOp o :: ts2) (obin o r1 r2).
+
+Inductive Eg : list tok -> option Z -> Prop :=
+| Eg_t ts r : Tg ts r -> Eg ts r
+| Eg_add ts1 ts2 r1 r2 o : Eg ts1 r1 -> Tg ts2 r2 -> (o = Add \/ o = Sub) ->
+    Eg (ts1 ++ TOp o :: ts2) (obin o r1 r2).
+
+Definition goes (r : option Z) (k : Z -> outcome Z) : outcome Z :=
+  match r with Some v => k v | None => Err divzero end.
+
+(* running a factor's tokens, then the continuation = pushing its value, then the continuation *)
+Lemma Fg_run ts r : Fg ts r -> forall nxt rest vs os, nxt <> Some Pow ->
+  run (ts ++ cont nxt rest) true vs os = goes r (fun v => after nxt rest (v :: vs) os).
+Proof.
+  induction 1 as [n | n ts r HF IH]; intros nxt rest vs os Hn.
+  - reflexivity.
+  - cbn [app run].
+    change (obind (push_operator Pow (n :: vs) os)
+              (fun st => run (ts ++ cont nxt rest) true (fst st) (snd st)))
+      with (after (Some Pow) (ts ++ cont nxt rest) (n :: vs) os).
+    rewrite after_push by (destruct os; [exact I | apply stop_pow]).
+    rewrite (IH nxt rest (n :: vs) (Pow :: os) Hn).
+    destruct r as [v|]; cbn [goes obin]; [|reflexivity].
+    rewrite after_nopop.
+    + destruct (aply Pow n v); reflexivity.
+    + destruct nxt as [[]|]; try reflexivity. congruence.
+Qed.
+
+(* the operator stack is "low": its top (if any) is + or - *)
+Definition low (os : list bop) : Prop :=
+  match os with [] => True | top :: _ => top = Add \/ top = Sub end.
+
+Lemma low_stop_mul o os : (o = Mul \/ o = Div) -> low os ->
+  match os with [] => True | top :: _ => stop top (Some o) = true end.
+Proof.
+  intros Ho Hl. destruct os as [|top os]; [exact I|].
+  cbn [low] in Hl. destruct Ho as [-> | ->], Hl as [-> | ->]; reflexivity.
+Qed.
+
+Lemma Tg_run ts r : Tg ts r -> forall nxt rest vs os, nxt <> Some Pow -> low os ->
+  run (ts ++ cont nxt rest) true vs os = goes r (fun v => after nxt rest (v :: vs) os).
+Proof.
+  induction 1 as [ts r HF | ts1 ts2 r1 r2 o HT IH HF Ho]; intros nxt rest vs os Hn Hl.
+  - now apply (Fg_run _ _ HF).
+  - rewrite <- app_assoc. cbn [app].
+    change (TOp o :: ts2 ++ cont nxt rest) with (cont (Some o) (ts2 ++ cont nxt rest)).
+    rewrite IH; [| destruct Ho as [-> | ->]; congruence | assumption].
+    destruct r1 as [v1|]; cbn [goes obin]; [|reflexivity].
+    rewrite after_push by (now apply low_stop_mul).
+    rewrite (Fg_run _ _ HF nxt rest (v1 :: vs) (o :: os) Hn).
+    destruct r2 as [v2|]; cbn [goes]; [|reflexivity].
+    rewrite after_nopop.
+    + destruct (aply o v1 v2); reflexivity.
+    + destruct nxt as [[]|]; destruct Ho as [-> | ->]; try reflexivity; congruence.
+Qed.
+
+Lemma Eg_run ts r : Eg ts r -> forall nxt rest vs,
+  (nxt = None \/ nxt = Some Add \/ nxt = Some Sub) ->
+  run (ts ++ cont nxt rest) true vs [] = goes r (fun v => after nxt rest (v :: vs) []).
+Proof.
+  induction 1 as [ts r HT | ts1 ts2 r1 r2 o HE IH HT Ho]; intros nxt rest vs Hn.
+  - apply (Tg_run _ _ HT); [destruct Hn as [-> | [-> | ->]]; congruence | exact I].
+  - rewrite <- app_assoc. cbn [app].
+    change (TOp o :: ts2 ++ cont nxt rest) with (cont (Some o) (ts2 ++ cont nxt rest)).
+    rewrite IH by (destruct Ho as [-> | ->]; auto).
+    destruct r1 as [v1|]; cbn [goes obin]; [|reflexivity].
+    rewrite after_push by exact I.
+    rewrite (Tg_run _ _ HT nxt rest (v1 :: vs) [o]);
+      [| destruct Hn as [-> | [-> | ->]]; congruence | exact Ho].
+    destruct r2 as [v2|]; cbn [goes]; [|reflexivity].
+    rewrite after_nopop.
+    + destruct (aply o v1 v2); reflexivity.
+    + destruct Hn as [-> | [-> | ->]]; destruct Ho as [-> | ->]; reflexivity.
+Qed.
+
+Lemma yard_complete_gen ts r : Eg ts r ->
+  yard ts = match r with Some v => Ok v | None => Err divzero end.
+Proof.
+  intros HE. unfold yard.
+  pose proof (Eg_run ts r HE None [] [] (or_introl eq_refl)) as H.
+  cbn [cont] in H. rewrite app_nil_r in H. rewrite H.
+  destruct r; reflexivity.
+Qed.
+
+(* the plain grammar is the Some-part of the generalised one *)
+Lemma F_Fg ts v : F ts v -> Fg ts (Some v).
+Proof.
+  induction 1 as [n | n ts v z HF IH Hb].
+  - constructor.
+  - apply binop_aply in Hb.
+    replace (Some z) with (obin Pow (Some n) (Some v)) by exact Hb. now constructor.
+Qed.
+
+Lemma T_Tg ts v : T ts v -> Tg ts (Some v).
+Proof.
+  induction 1 as [ts v HF | ts1 ts2 v1 v2 o z HT IH HF Ho Hb].
+  - apply Tg_f. now apply F_Fg.
+  - apply binop_aply in Hb.
+    replace (Some z) with (obin o (Some v1) (Some v2)) by exact Hb.
+    apply Tg_mul; [assumption | now apply F_Fg | assumption].
+Qed.
+
+Lemma E_Eg ts v : E ts v -> Eg ts (Some v).
+Proof.
+  induction 1 as [ts v HT | ts1 ts2 v1 v2 o z HE IH HT Ho Hb].
+  - apply Eg_t. now apply T_Tg.
+  - apply binop_aply in Hb.
+    replace (Some z) with (obin o (Some v1) (Some v2)) by exact Hb.
+    apply Eg_add; [assumption | now apply T_Tg | assumption].
+Qed.
+
+Lemma obin_some o r1 r2 z : obin o r1 r2 = Some z ->
+  exists v1 v2, r1 = Some v1 /\ r2 = Some v2 /\ binop o v1 v2 z.
+Proof.
+  destruct r1 as [v1|], r2 as [v2|]; cbn [obin]; try discriminate.
+  intros H. exists v1, v2. repeat split. now apply binop_aply.
+Qed.
+
+Lemma Fg_F ts r : Fg ts r -> forall v, r = Some v -> F ts v.
+Proof.
+  induction 1 as [n | n ts r HF IH]; intros v Hv.
+  - injection Hv as <-. constructor.
+  - apply obin_some in Hv. destruct Hv as [v1 [v2 [H1 [H2 Hb]]]].
+    injection H1 as <-. eapply F_pow; [apply IH; exact H2 | exact Hb].
+Qed.
+
+Lemma Tg_T ts r : Tg ts r -> forall v, r = Some v -> T ts v.
+Proof.
+  induction 1 as [ts r HF | ts1 ts2 r1 r2 o HT IH HF Ho]; intros v Hv.
+  - apply T_f. eapply Fg_F; eassumption.
+  - apply obin_some in Hv. destruct Hv as [v1 [v2 [H1 [H2 Hb]]]].
+    eapply T_mul; [apply IH; exact H1 | eapply Fg_F; eassumption | exact Ho | exact Hb].
+Qed.
+
+Lemma Eg_E ts r : Eg ts r -> forall v, r = Some v -> E ts v.
+Proof.
+  induction 1 as [ts r HT | ts1 ts2 r1 r2 o HE IH HT Ho]; intros v Hv.
+  - apply E_t. eapply Tg_T; eassumption.
+  - apply obin_some in Hv. destruct Hv as [v1 [v2 [H1 [H2 Hb]]]].
+    eapply E_add; [apply IH; exact H1 | eapply Tg_T; eassumption | exact Ho | exact Hb].
+Qed.
+
+(* completeness: the yard computes the value the grammar assigns *)
+Theorem yard_complete ts v : E ts v -> yard ts = Ok v.
+Proof. intros H. apply E_Eg in H. now rewrite (yard_complete_gen _ _ H). Qed.
+
+(* ---- totality of the generalised grammar on alternating token lists ---- *)
+Lemma Fg_snoc_pow ts r n : Fg ts r -> exists r', Fg (ts ++ [TOp Pow; TNum n]) r'.
+Proof.
+  induction 1 as [m | m ts r HF [r' IH]].
+  - eexists. cbn [app]. apply Fg_pow. apply Fg_num.
+  - eexists. cbn [app]. apply Fg_pow. exact IH.
+Qed.
+
+Lemma Tg_snoc_pow ts r n : Tg ts r -> exists r', Tg (ts ++ [TOp Pow; TNum n]) r'.
+Proof.
+  destruct 1 as [ts r HF | ts1 ts2 r1 r2 o HT HF Ho].
+  - destruct (Fg_snoc_pow _ _ n HF) as [r' H]. eexists. apply Tg_f. exact H.
+  - destruct (Fg_snoc_pow _ _ n HF) as [r' H]. eexists.
+    rewrite <- app_assoc. cbn [app]. apply Tg_mul; eassumption.
+Qed.
+
+Lemma Eg_snoc_pow ts r n : Eg ts r -> exists r', Eg (ts ++ [TOp Pow; TNum n]) r'.
+Proof.
+  destruct 1 as [ts r HT | ts1 ts2 r1 r2 o HE HT Ho].
+  - destruct (Tg_snoc_pow _ _ n HT) as [r' H]. eexists. apply Eg_t. exact H.
+  - destruct (Tg_snoc_pow _ _ n HT) as [r' H]. eexists.
+    rewrite <- app_assoc. cbn [app]. apply Eg_add; eassumption.
+Qed.
+
+Lemma Tg_snoc_mul ts r o n : (o = Mul \/ o = Div) -> Tg ts r ->
+  exists r', Tg (ts ++ [TOp o; TNum n]) r'.
+Proof.
+  intros Ho HT. eexists. apply Tg_mul; [exact HT | apply Fg_num | exact Ho].
+Qed.
+
+Lemma Eg_snoc_mul ts r o n : (o = Mul \/ o = Div) -> Eg ts r ->
+  exists r', Eg (ts ++ [TOp o; TNum n]) r'.
+Proof.
+  intros Ho. destruct 1 as [ts r HT | ts1 ts2 r1 r2 o' HE HT Ho'].
+  - destruct (Tg_snoc_mul _ _ o n Ho HT) as [r' H]. eexists. apply Eg_t. exact H.
+  - destruct (Tg_snoc_mul _ _ o n Ho HT) as [r' H]. eexists.
+    rewrite <- app_assoc. cbn [app]. apply Eg_add; eassumption.
+Qed.
+
+Lemma Eg_snoc ts r o n : Eg ts r -> exists r', Eg (ts ++ [TOp o; TNum n]) r'.
+Proof.
+  intros HE. destruct o.
+  - now apply (Eg_snoc_pow _ _ n HE).
+  - apply (Eg_snoc_mul ts r Mul n); auto.
+  - apply (Eg_snoc_mul ts r Div n); auto.
+  - eexists. apply Eg_add; [exact HE | apply Tg_f, Fg_num | auto].
+  - eexists. apply Eg_add; [exact HE | apply Tg_f, Fg_num | auto].
+Qed.
+
+Lemma Eg_total_from k : forall r pre rp, (length r <= k)%nat -> Eg pre rp ->
+  alternates false r -> exists r', Eg (pre ++ r) r'.
+Proof.
+  induction k as [|k IH]; intros r pre rp Hl HE Ha.
+  - destruct r; [|cbn [length] in Hl; lia]. rewrite app_nil_r. eauto.
+  - destruct r as [|[n|o] r1]; [rewrite app_nil_r; eauto | destruct Ha |].
+    cbn [alternates] in Ha. destruct r1 as [|[n|o'] r2]; [destruct Ha | | destruct Ha].
+    cbn [alternates] in Ha.
+    destruct (Eg_snoc _ _ o n HE) as [r1 H1].
+    destruct (IH r2 _ _ ltac:(cbn [length] in Hl; lia) H1 Ha) as [r' H'].
+    exists r'. rewrite <- app_assoc in H'. exact H'.
+Qed.
+
+Lemma Eg_total ts : alternates true ts -> exists r, Eg ts r.
+Proof.
+  destruct ts as [|[n|o] r]; cbn [alternates]; intros Ha; try destruct Ha.
+  apply (Eg_total_from (length r) r [TNum n] (Some n)); [lia | apply Eg_t, Tg_f, Fg_num | exact Ha].
+Qed.
+
+(* ---- stack-depth invariant: a value can only come out of an alternating token list ---- *)
+Lemma apply_len o vs vs' : apply o vs = Ok vs' -> length vs = S (length vs').
+Proof.
+  destruct vs as [|y [|x vs]]; try discriminate.
+  rewrite apply_aply. destruct (aply o x y); [|discriminate].
+  intros H. injection H as <-. reflexivity.
+Qed.
+
+Lemma pop_while_len o : forall os vs vs' os', pop_while o vs os = Ok (vs', os') ->
+  (length vs + length os' = length vs' + length os)%nat.
+Proof.
+  induction os as [|top os IH]; intros vs vs' os' H; cbn [pop_while] in H.
+  - injection H as <- <-. reflexivity.
+  - destruct ((prec top <? prec o)%N || ((prec top =? prec o)%N && rassoc o)).
+    + injection H as <- <-. reflexivity.
+    + destruct (apply top vs) as [vs1| | |] eqn:Ea; try discriminate.
+      cbn [obind] in H. apply IH in H. apply apply_len in Ea. cbn [length]. lia.
+Qed.
+
+Lemma result_len : forall os vs v, result vs os = Ok v -> length vs = S (length os).
+Proof.
+  induction os as [|top os IH]; intros vs v H; cbn [result] in H.
+  - destruct vs as [|a [|b vs]]; try discriminate. reflexivity.
+  - destruct (apply top vs) as [vs1| | |] eqn:Ea; try discriminate.
+    cbn [obind] in H. apply IH in H. apply apply_len in Ea. cbn [length]. lia.
+Qed.
+
+Lemma run_ok_alt : forall ts operand vs os v, run ts operand vs os = Ok v ->
+  (length vs + (if operand then 1 else 0) = S (length os))%nat -> alternates operand ts.
+Proof.
+  induction ts as [|[n|o] ts IH]; intros operand vs os v H Hl.
+  - cbn [run] in H. apply result_len in H. destruct operand; [lia | exact I].
+  - cbn [run] in H. destruct operand; [|discriminate]. cbn [alternates].
+    apply (IH _ _ _ _ H). cbn [length]. lia.
+  - cbn [run] in H. destruct operand; [discriminate|]. cbn [alternates].
+    unfold push_operator in H.
+    destruct (pop_while o vs os) as [[vs' os']| | |] eqn:Ep; try discriminate.
+    cbn [obind fst snd] in H. apply pop_while_len in Ep.
+    apply (IH _ _ _ _ H). cbn [length]. lia.
+Qed.
+
+(* soundness: a value returned by the yard is the value the grammar assigns *)
+Theorem yard_sound ts v : yard ts = Ok v -> E ts v.
+Proof.
+  intros H. pose proof (run_ok_alt _ _ _ _ _ H eq_refl) as Ha.
+  destruct (Eg_total _ Ha) as [r Hr].
+  pose proof (yard_complete_gen _ _ Hr) as Hc. rewrite H in Hc.
+  destruct r as [v'|]; [|discriminate]. injection Hc as ->.
+  now apply (Eg_E _ _ Hr).
+Qed.
+
+Theorem E_unique ts v v' : E ts v -> E ts v' -> v = v'.
+Proof.
+  intros H H'. apply yard_complete in H. apply yard_complete in H'.
+  rewrite H in H'. now injection H'.
+Qed.
+
+Lemma E_alternates ts v : E ts v -> alternates true ts.
+Proof. intros H. apply yard_complete in H. exact (run_ok_alt _ _ _ _ _ H eq_refl). Qed.
+
+(* on an alternating list the only thing that can go wrong is a division by zero *)
+Theorem yard_divzero ts : alternates true ts -> (forall v, ~ E ts v) -> yard ts = Err divzero.
+Proof.
+  intros Ha Hn. destruct (Eg_total _ Ha) as [r Hr].
+  rewrite (yard_complete_gen _ _ Hr). destruct r as [v|]; [|reflexivity].
+  exfalso. apply (Hn v). now apply (Eg_E _ _ Hr).
+Qed.
+
+(* ---- the model never panics and never runs out of fuel at token level ---- *)
+Definition settled {A} (x : outcome A) : Prop :=
+  match x with Ok _ | Err _ => True | _ => False end.
+
+Lemma apply_settled o vs : settled (apply o vs).
+Proof.
+  destruct vs as [|y [|x vs]]; try exact I.
+  rewrite apply_aply. destruct (aply o x y); exact I.
+Qed.
+
+Lemma pop_while_settled o : forall os vs, settled (pop_while o vs os).
+Proof.
+  induction os as [|top os IH]; intros vs; cbn [pop_while]; [exact I|].
+  destruct ((prec top <? prec o)%N || ((prec top =? prec o)%N && rassoc o)); [exact I|].
+  pose proof (apply_settled top vs) as Hs.
+  destruct (apply top vs); cbn [obind]; try exact Hs. apply IH.
+Qed.
+
+Lemma push_settled o vs os : settled (push_operator o vs os).
+Proof.
+  unfold push_operator. pose proof (pop_while_settled o os vs) as Hs.
+  destruct (pop_while o vs os); cbn [obind]; exact Hs.
+Qed.
+
+Lemma result_settled : forall os vs, settled (result vs os).
+Proof.
+  induction os as [|top os IH]; intros vs; cbn [result].
+  - destruct vs as [|a [|b vs]]; exact I.
+  - pose proof (apply_settled top vs) as Hs.
+    destruct (apply top vs); cbn [obind]; try exact Hs. apply IH.
+Qed.
+
+Lemma run_settled : forall ts operand vs os, settled (run ts operand vs os).
+Proof.
+  induction ts as [|[n|o] ts IH]; intros operand vs os; cbn [run].
+  - apply result_settled.
+  - destruct operand; [apply IH | exact I].
+  - destruct operand; [exact I|].
+    pose proof (push_settled o vs os) as Hs.
+    destruct (push_operator o vs os); cbn [obind]; try exact Hs. apply IH.
 Qed.
